@@ -87,37 +87,38 @@ def main():
         res.append([[[int(x) for x in row] for row in m] for m in il])
     out["ilist"] = res
 
-    res = []
-    for prog in req.get("programs", []):
-        d = prog["d"]
-        rec = {}
-        try:
-            program = build(prog)
-            fock = pq.fermionic.PureFockSimulator(d=d, config=pq.Config(cutoff=d + 1))
-            sf = fock.execute(program).state
-            rec["state"] = cl(sf.state_vector)
-            pm = sf.fock_probabilities_map
-            rec["keys"] = [[int(x) for x in k] for k in pm.keys()]
-            rec["probs"] = [float(np.real(v)) for v in pm.values()]
-            rec["probs_imag"] = float(max(abs(np.imag(v)) for v in pm.values()))
-            rec["norm"] = float(np.real(sf.norm))
-            rec["cov"] = np.asarray(sf.covariance_matrix).real.tolist()
-            rec["pdp"] = [float(sf.get_particle_detection_probability(k)) for k in rec["keys"]]
-        except Exception as e:  # reported by the check
-            rec["fock_error"] = "%s: %s" % (type(e).__name__, e)
-        if prog.get("gaussian", True):
-            try:
-                program = build(prog)
-                gs = pq.fermionic.GaussianSimulator(d=d)
-                sg = gs.execute(program).state
-                rec["gcov"] = np.asarray(sg.covariance_matrix).real.tolist()
-                keys = rec.get("keys") or []
-                rec["gprobs"] = [float(sg.get_particle_detection_probability(np.array(k))) for k in keys]
-                rec["gmean"] = [float(x) for x in sg.mean_particle_numbers(tuple(range(d)))]
-            except Exception as e:
-                rec["gaussian_error"] = "%s: %s" % (type(e).__name__, e)
-        res.append(rec)
-    out["programs"] = res
+    for key in ("programs", "probes"):
+      res = []
+      for prog in req.get(key, []):
+          d = prog["d"]
+          rec = {}
+          try:
+              program = build(prog)
+              fock = pq.fermionic.PureFockSimulator(d=d, config=pq.Config(cutoff=d + 1))
+              sf = fock.execute(program).state
+              rec["state"] = cl(sf.state_vector)
+              pm = sf.fock_probabilities_map
+              rec["keys"] = [[int(x) for x in k] for k in pm.keys()]
+              rec["probs"] = [float(np.real(v)) for v in pm.values()]
+              rec["probs_imag"] = float(max(abs(np.imag(v)) for v in pm.values()))
+              rec["norm"] = float(np.real(sf.norm))
+              rec["cov"] = np.asarray(sf.covariance_matrix).real.tolist()
+              rec["pdp"] = [float(sf.get_particle_detection_probability(k)) for k in rec["keys"]]
+          except Exception as e:  # reported by the check
+              rec["fock_error"] = "%s: %s" % (type(e).__name__, e)
+          if prog.get("gaussian", True):
+              try:
+                  program = build(prog)
+                  gs = pq.fermionic.GaussianSimulator(d=d)
+                  sg = gs.execute(program).state
+                  rec["gcov"] = np.asarray(sg.covariance_matrix).real.tolist()
+                  keys = rec.get("keys") or []
+                  rec["gprobs"] = [float(sg.get_particle_detection_probability(np.array(k))) for k in keys]
+                  rec["gmean"] = [float(x) for x in sg.mean_particle_numbers(tuple(range(d)))]
+              except Exception as e:
+                  rec["gaussian_error"] = "%s: %s" % (type(e).__name__, e)
+          res.append(rec)
+      out[key] = res
     print(json.dumps(out))
 
 
